@@ -370,3 +370,65 @@ func genFilter(r *kit.Rand, depth int) *Filter {
 	}
 	return f
 }
+
+// GenManyUnits generates a small case whose benchmark lines carry exactly n
+// measurements (units m0/op .. m<n-1>/op) and a filter with `.unit` terms, so
+// that per-measurement match masks of exactly n bits are exercised (n around
+// the 32-bit word boundaries).
+func GenManyUnits(r *kit.Rand, n int) *Case {
+	c := &Case{Seed: r.Uint64()}
+	unit := func(i int) string { return "m" + itoa(i) + "/op" }
+	names := []*Name{{Base: "Enc"}, {Base: "Dec", Parts: []Part{{"size", "s1"}}}}
+	nf := r.Range(1, 2)
+	for fi := 0; fi < nf; fi++ {
+		f := File{SameAs: -1}
+		if r.Chance(0.5) {
+			f.Lines = append(f.Lines, Line{K: KCfg, Key: "goos", Val: kit.Pick(r, CfgVals["goos"])})
+		}
+		rep := r.Range(1, 3)
+		for round := 0; round < rep; round++ {
+			for _, nm := range names {
+				l := Line{K: KBench, Name: nm, Its: r.Range(1, 1000)}
+				for u := 0; u < n; u++ {
+					l.Vals = append(l.Vals, Val{kit.F(round4(r.LogUniform(0, 4))), unit(u)})
+				}
+				f.Lines = append(f.Lines, l)
+			}
+		}
+		c.Files = append(c.Files, f)
+	}
+	c.Flags = Flags{Alpha: -1, Confidence: -1}
+	// a .unit term naming 1-3 units, biased to the last word of the mask
+	t := &Filter{Op: "term", Key: ".unit"}
+	k := r.Range(1, 3)
+	for j := 0; j < k; j++ {
+		i := r.Intn(n)
+		if r.Chance(0.6) && n > 32 {
+			i = n - 1 - r.Intn(32)
+		}
+		t.Vals = append(t.Vals, unit(i))
+	}
+	switch r.Intn(4) {
+	case 0:
+		c.Flags.Filter = t
+	case 1:
+		c.Flags.Filter = &Filter{Op: "not", Kids: []*Filter{t}}
+	case 2:
+		c.Flags.Filter = &Filter{Op: "and", Kids: []*Filter{{Op: "not", Kids: []*Filter{t}}, {Op: "term", Key: ".name", Vals: []string{"Enc"}}}}
+	default:
+		c.Flags.Filter = &Filter{Op: "or", Kids: []*Filter{t, {Op: "term", Key: "/size", Vals: []string{"s1"}}}}
+	}
+	return c
+}
+
+func itoa(i int) string {
+	if i == 0 {
+		return "0"
+	}
+	var b []byte
+	for i > 0 {
+		b = append([]byte{byte('0' + i%10)}, b...)
+		i /= 10
+	}
+	return string(b)
+}
